@@ -110,13 +110,24 @@ def ticks_record(d0, d1, m, pre=None):
         if step is None:
             return None
     un = units(step, lo, hi)
+    base = Fraction(0)
+    base_n = 0
     if un is None:
-        return None
+        # a domain millions of steps away from zero does not fit the integer units: record it relative to the last multiple
+        # of the step below the domain (every clause - multiples of the step, inside the domain, none missing, labels that
+        # read back - is invariant under a shift by a whole number of steps)
+        m0, e0 = step_cert(step)
+        exact_step = Fraction(m0) * Fraction(10) ** e0
+        base_n = (Fraction(lo) / exact_step).__floor__()
+        base = base_n * exact_step
+        un = units(step, float(Fraction(lo) - base), float(Fraction(hi) - base))
+        if un is None:
+            return None
     mant, exp, Q, u = un
-    q = lambda v: int(round(Fraction(v) / u))
+    q = lambda v: int(round((Fraction(v) - base) / u))
     rec.update({
         "mant": mant, "Q": Q, "exp": exp, "lo": q(lo), "hi": q(hi),
-        "tq": [q(t) for t in ticks], "n": [int(round(t / step)) for t in ticks],
+        "tq": [q(t) for t in ticks], "n": [int(round(Fraction(t) / (Fraction(mant) * Fraction(10) ** exp))) - base_n for t in ticks],
         "lab": labels, "lq": [q(readback(x)) if readback(x) is not None else 0 for x in labels],
         "lok": [0 if readback(x) is None else 1 for x in labels],
     })
@@ -144,10 +155,17 @@ def nice_record(d0, d1, m):
     lo, hi = min(d0, d1), max(d0, d1)
     nlo, nhi = min(nd), max(nd)
     un = units(step, min(lo, nlo), max(hi, nhi))
+    base = Fraction(0)
     if un is None:
-        return None
+        # (as for tick records: a domain millions of steps away from zero is recorded relative to a multiple of the step below it)
+        m0, e0 = step_cert(step)
+        exact_step = Fraction(m0) * Fraction(10) ** e0
+        base = (Fraction(min(lo, nlo)) / exact_step).__floor__() * exact_step
+        un = units(step, float(Fraction(min(lo, nlo)) - base), float(Fraction(max(hi, nhi)) - base))
+        if un is None:
+            return None
     mant, exp, Q, u = un
-    q = lambda v: int(round(Fraction(v) / u))
+    q = lambda v: int(round((Fraction(v) - base) / u))
     return {"kind": "nice", "m": m, "mant": mant, "Q": Q, "exp": exp, "dom": [repr(d0), repr(d1)], "niced": [repr(x) for x in nd],
             "lo": q(lo), "hi": q(hi), "nlo": q(nlo), "nhi": q(nhi),
             "rev_in": 1 if d0 > d1 else 0, "rev_out": 1 if nd[0] > nd[1] else 0}
@@ -328,7 +346,7 @@ def main():
             lo = mag * rng.uniform(0.5, 1.0)
             if rng.random() < 0.3:
                 lo = float(int(lo)) + 0.5 if abs(lo) > 10 else lo
-            m = rng.choice([None, 1, 2, 3, 5, 10, 20])
+            m = rng.choice([None, 1, 2, 3, 5, 10, 20, 40, 70, 100])       # (many ticks on a tiny relative span: steps of 1e-8 of the magnitude)
             d0, d1 = (lo, lo + span) if rng.random() < 0.7 else (lo + span, lo)
             for fn in (ticks_record, nice_record):
                 r = fn(d0, d1, m)
